@@ -40,7 +40,7 @@ def bounds(tier):
 
 def goals(tier):
     return ["embedded-question-order", "embedded-items", "fs-supported-file", "fs-ignored-file", "fs-case-variant-extension", "fs-subdirectory", "fs-directory-named-like-a-plasmid",
-            "fs-dotted-stem", "fs-empty-directory", "fs-question-order", "fs-content-shapes", "combined-overlap-first-wins", "combined-small-before-large-overlap", "combined-repeated-member", "combined-nested-member-after-an-overlapping-one", "combined-closure-or-depth"]
+            "fs-dotted-stem", "fs-empty-directory", "fs-question-order", "fs-directory-changes-under-a-live-registry", "fs-content-shapes", "combined-overlap-first-wins", "combined-small-before-large-overlap", "combined-repeated-member", "combined-nested-member-after-an-overlapping-one", "combined-closure-or-depth"]
 
 
 # ---------------------------------------------------------------------------------------------
@@ -470,6 +470,42 @@ def op_orders(st, entries, backend, extensions, tmpdir):
                          dict(family="fs-order", entries=list(entries), backend=backend, extensions=list(extensions) if extensions else None, order=list(perm)),
                          {k: str(v)[:120] for k, v in ref.items()}, {k: str(v)[:120] for k, v in out.items()})
             return
+    # the directory changes under a registry object that was already asked everything (files are added and removed by other
+    # programs; the registry itself only reads): every later answer must describe the directory as it is then
+    import fs as _fs
+    from fs.memoryfs import MemoryFS as _Mem
+    from moclo.registry.base import FilesystemRegistry as _FR
+    from moclo.kits import ytk as _ytk
+    if backend == "mem":
+        f2 = _Mem()
+    else:
+        os.makedirs(tmpdir, exist_ok=True)
+        f2 = _fs.open_fs(tmpdir)
+    try:
+        populate(f2, entries, 0)
+        reg2 = _FR(f2, _ytk.YTKPart, extensions=tuple(extensions)) if extensions else _FR(f2, _ytk.YTKPart)
+        first = (sorted(reg2), len(reg2), bool(reg2))
+        f2.writetext("added_later.gb", genbank_text("added_later", 0))
+        scn2 = dict(family="fs-order", entries=list(entries), backend=backend, extensions=list(extensions) if extensions else None, order=["directory-changed"])
+        keys2 = sorted(reg2)
+        exts = tuple(extensions) if extensions else ("gb", "gbk")
+        if ("added_later" in keys2) != ("gb" in exts):
+            st.violation("filesystem", "file-added-later-not-listed", scn2, "added_later listed", keys2)
+        if len(reg2) != len(keys2):
+            st.violation("filesystem", "len-differs-from-number-of-keys-after-the-directory-changed", scn2, len(keys2), len(reg2))
+        f2.remove("added_later.gb")
+        keys3 = sorted(reg2)
+        if len(reg2) != len(keys3) or keys3 != first[0]:
+            st.violation("filesystem", "len-differs-from-number-of-keys-after-the-directory-changed", dict(scn2, order=["directory-changed-back"]), [len(keys3), first[0]], [len(reg2), keys3])
+        st.scenario("op-order", None, calls=6, nodes=0)
+        st.goal("fs-directory-changes-under-a-live-registry")
+    finally:
+        try:
+            f2.close()
+        except Exception:
+            pass
+        if backend == "os":
+            shutil.rmtree(tmpdir, ignore_errors=True)
     st.goal("fs-question-order")
 
 
